@@ -33,6 +33,39 @@ normpath_of = z3.Function("posix_normpath", S, S)
 abspath_of = z3.Function("posix_abspath", S, S)
 quote_of = z3.Function("urllib_quote", S, S)
 
+_alphabets = {}   # name -> (z3 predicate String->Bool, python predicate on one char)
+
+
+def alphabet(name, charpred=None, builder=None):
+    """`all characters of s belong to alphabet <name>`: an uninterpreted predicate, or a
+    defined one (``builder``, e.g. "does not contain ';'").  The string models state, as
+    part of each library contract, that the result's characters come from the
+    receiver/arguments (alphabet preservation)."""
+    if name not in _alphabets:
+        _alphabets[name] = (builder or z3.Function(f"alphabet_{name}", S, B), charpred)
+    return _alphabets[name][0]
+
+
+def excludes_char(c):
+    return alphabet(f"no_{ord(c):x}", lambda ch, c=c: ch != c, lambda x, c=c: z3.Not(z3.Contains(x, z3.StringVal(c))))
+
+
+def alphabet_facts_derived(I, result, sources, extra_literals=()):
+    """result's characters all come from `sources` (z3 string terms) or from literals"""
+    for name, (pred, charpred) in _alphabets.items():
+        if charpred is None:
+            continue
+        if all(charpred(c) for lit in extra_literals for c in lit):
+            I.assume(z3.Implies(z3.And([alpha_term(pred, charpred, x) for x in sources] or [z3.BoolVal(True)]), pred(result)))
+
+
+def alpha_term(pred, charpred, x):
+    if z3.is_string_value(x):
+        from .solve import _z3_unescape
+        return z3.BoolVal(all(charpred(c) for c in _z3_unescape(x.as_string())))
+    return pred(x)
+
+
 _strip_chars_fns = {}
 
 
@@ -438,6 +471,7 @@ def install(ex):
                 I.assume(z3.PrefixOf(r, z))
             if side == "l":
                 I.assume(z3.SuffixOf(r, z))
+            alphabet_facts_derived(I, r, [z])
             return SStr(r)
         return f
     ex.methods[("str", "strip")] = Model("str.strip", _strip(""))
@@ -465,6 +499,7 @@ def install(ex):
             I.assume(z3.Implies(z3.Length(z) > 0, z3.Length(r) > 0))
         if len(a) == len(b):
             I.assume(z3.Length(r) == z3.Length(z))
+        alphabet_facts_derived(I, r, [z], [b])
         return SStr(r)
 
     def _can_recreate(a, b):
